@@ -118,6 +118,114 @@ pub fn run(ctx: &mut Ctx) {
   range_eval(ctx);
 }
 
+type Key = (u64, u64);
+type DynIt = Box<dyn DoubleEndedIterator<Item = Key>>;
+
+/// The statement's "exactly n values … from either end" on ONE real iterator instance consumed from
+/// both ends: the front-pulled points in forward order followed by the back-pulled points reversed
+/// must be the sequential traversal (each point exactly once — theorem `steps_drain_partition`),
+/// and every pull after the n-th must return `None`, and keep returning `None`.
+/// Returns the first violated mode with a description.
+fn double_ended_modes(make: &dyn Fn() -> DynIt, seq: &[Key], r: &mut Rng) -> Result<(), (String, String)> {
+  let n = seq.len();
+  let check = |mode: &str, info: String, front: Vec<Key>, mut back: Vec<Key>, late_some: bool| -> Result<(), (String, String)> {
+    back.reverse();
+    let total = front.len() + back.len();
+    let mut all = front.clone();
+    all.extend(back.iter().copied());
+    if late_some {
+      return Err((mode.to_string(), format!("{} a pull after the last point returned Some (delivered={} n={})", info, total, n)));
+    }
+    if total != n {
+      return Err((mode.to_string(), format!("{} delivered={} n={}", info, total, n)));
+    }
+    if all != seq {
+      return Err((mode.to_string(), format!("{} delivered points are not the sequence, each exactly once (front={} back={})", info, front.len(), back.len())));
+    }
+    Ok(())
+  };
+  // 1. random interleavings of next / next_back, three different biases
+  for bias in [0.5, 0.15, 0.85] {
+    let mut it = make();
+    let script: String = (0..n + 4).map(|_| if r.unit() < bias { 'F' } else { 'B' }).collect();
+    let (mut front, mut back) = (Vec::new(), Vec::new());
+    let mut late_some = false;
+    let mut early_none = false;
+    for c in script.chars() {
+      let before = front.len() + back.len();
+      let v = if c == 'F' { it.next() } else { it.next_back() };
+      match v {
+        Some(x) => {
+          if before >= n {
+            late_some = true;
+          }
+          if c == 'F' { front.push(x) } else { back.push(x) }
+        }
+        None => {
+          if before < n {
+            early_none = true;
+          }
+        }
+      }
+    }
+    let shown = if script.len() > 40 { format!("{}…", &script[..40]) } else { script.clone() };
+    if early_none {
+      return Err(("interleaved".into(), format!("script={} a pull returned None before n points were delivered", shown)));
+    }
+    check("interleaved", format!("script={}", shown), front, back, late_some)?;
+  }
+  // 2. k × next, then rev() drains the rest; afterwards both ends stay None
+  for k in [0usize, 1, n / 2, n.saturating_sub(1), n, n + 1] {
+    let mut it = make();
+    let front: Vec<Key> = (0..k).filter_map(|_| it.next()).collect();
+    let mut rv = it.rev();
+    let back: Vec<Key> = rv.by_ref().collect();
+    let late = rv.next().is_some() || rv.next_back().is_some() || rv.next().is_some();
+    check("next-then-rev", format!("k={}", k), front, back, late)?;
+  }
+  // 3. rev() first: j pulls from the reversed iterator (= next_back), then its next_back (= next) to the end
+  for j in [0usize, 1, n / 3, n, n + 2] {
+    let mut rv = make().rev();
+    let back: Vec<Key> = (0..j).filter_map(|_| rv.next()).collect();
+    let mut front = Vec::new();
+    let mut guard_count = 0;
+    while let Some(x) = rv.next_back() {
+      front.push(x);
+      guard_count += 1;
+      if guard_count > 2 * n + 4 {
+        break;
+      }
+    }
+    let late = rv.next().is_some() || rv.next_back().is_some();
+    check("rev-then-next_back", format!("j={}", j), front, back, late)?;
+  }
+  // 4. by_ref().take(k), then rev() of the same instance
+  for k in [1usize, n / 2 + 1, n + 1] {
+    let mut it = make();
+    let front: Vec<Key> = it.by_ref().take(k).collect();
+    let back: Vec<Key> = it.rev().collect();
+    check("take-then-rev", format!("k={}", k), front, back, false)?;
+  }
+  // 5. strictly alternating ends (the smallest failing case of a shared-pool bug: n = 1)
+  {
+    let mut it = make();
+    let (mut front, mut back) = (Vec::new(), Vec::new());
+    let mut late_some = false;
+    for i in 0..n + 3 {
+      let before = front.len() + back.len();
+      let v = if i % 2 == 0 { it.next() } else { it.next_back() };
+      if let Some(x) = v {
+        if before >= n {
+          late_some = true;
+        }
+        if i % 2 == 0 { front.push(x) } else { back.push(x) }
+      }
+    }
+    check("alternating", String::new(), front, back, late_some)?;
+  }
+  Ok(())
+}
+
 fn steps_case(ctx: &mut Ctx, a: f64, b: f64, n: usize) {
   ctx.count(&format!("steps/n={}", if n <= 2 { n.to_string() } else { "3+".into() }));
   let s = Steps(a, b, n);
@@ -136,6 +244,18 @@ fn steps_case(ctx: &mut Ctx, a: f64, b: f64, n: usize) {
   ctx.k("steps_drain", &format!("{} {} {} {}", fl(a), fl(b), n, sc), &outs.join(" "));
   if n >= 1 {
     ctx.k("steps_width", &format!("{} {} {}", fl(a), fl(b), n), &fl(s.division_width()));
+  }
+
+  // S: exactly n values from either end, on one instance consumed from both ends
+  {
+    let seq: Vec<Key> = v.iter().map(|x| (x.to_bits(), 0)).collect();
+    let make = move || -> DynIt { Box::new(Steps(a, b, n).into_iter().map(|x| (x.to_bits(), 0u64))) };
+    let r = double_ended_modes(&make, &seq, &mut ctx.rng);
+    let (ok, sig, why) = match r {
+      Ok(()) => (true, "steps/double-ended/ok".to_string(), String::new()),
+      Err((mode, why)) => (false, format!("steps/double-ended/{}", mode), why),
+    };
+    ctx.s("C14.steps", ok, &sig, &format!("a={:e} b={:e} n={} {}", a, b, n, why));
   }
 
   // S: the statement (restricted to magnitudes where no overflow can occur)
@@ -194,6 +314,17 @@ fn steps2d_case(ctx: &mut Ctx, ax: f64, bx: f64, nx: usize, ay: f64, by: f64, ny
     })
     .collect();
   ctx.k("steps2d_drain", &format!("{} {}", args, sc), &outs.join(" "));
+
+  {
+    let seq: Vec<Key> = v.iter().map(|p| (p.0.to_bits(), p.1.to_bits())).collect();
+    let make = move || -> DynIt { Box::new(Steps2D((ax, bx, nx), (ay, by, ny)).into_iter().map(|p| (p.0.to_bits(), p.1.to_bits()))) };
+    let r = double_ended_modes(&make, &seq, &mut ctx.rng);
+    let (ok, sig, why) = match r {
+      Ok(()) => (true, "steps2d/double-ended/ok".to_string(), String::new()),
+      Err((mode, why)) => (false, format!("steps2d/double-ended/{}", mode), why),
+    };
+    ctx.s("C14.steps2d", ok, &sig, &format!("x=({:e},{:e},{}) y=({:e},{:e},{}) {}", ax, bx, nx, ay, by, ny, why));
+  }
 
   if [ax, bx, ay, by].iter().all(|x| x.abs() < 1e150) {
     let xs: Vec<f64> = Steps(ax, bx, nx).into_iter().collect();
